@@ -30,6 +30,7 @@ type hsSub struct {
 	left           bool
 	stillConnected bool
 	stalled        bool
+	stalledAt      int // number of updates published when the client stopped reading
 	accepted       bool
 }
 
@@ -133,15 +134,23 @@ func numericIDs(body string) []string {
 	return out
 }
 
-func waitStable(w *hx.Writer, max time.Duration) {
+func waitStable(w *hx.Writer, max time.Duration) { waitQuiet(w, max, 5) }
+
+// waitQuiet returns once nothing has been written for ticks x 2 ms (or after max)
+func waitQuiet(w *hx.Writer, max time.Duration, ticks int) {
 	deadline := time.Now().Add(max)
 	last := w.NumWrites()
+	quiet := 0
 	for time.Now().Before(deadline) {
 		time.Sleep(2 * time.Millisecond)
 		n := w.NumWrites()
 		if n == last {
-			return
+			if quiet++; quiet >= ticks {
+				return
+			}
+			continue
 		}
+		quiet = 0
 		last = n
 	}
 }
@@ -205,8 +214,25 @@ func runHubSeq(a args) error {
 					s.stream.W.Gate(false)
 					ops = append(ops, fmt.Sprintf("HResume %d%%nat", i))
 					opsDesc = append(opsDesc, fmt.Sprintf("resume %d", i))
+					// the handler now writes what was buffered while the client did not read: wait until the newest update it was
+					// sent has arrived or the hub has ended the stream (a loaded machine may pause the handler for a long time
+					// between two writes, so "no write for a moment" alone is not a sign that it is done)
+					want := -1
+					if s.stalledAt <= len(published) {
+						for _, u := range published[s.stalledAt:] {
+							if hsMatches(s, u) {
+								want = u.ID
+							}
+						}
+					}
+					if want >= 0 {
+						deadline := time.Now().Add(10 * time.Second)
+						for time.Now().Before(deadline) && !strings.Contains(s.stream.W.Body(), fmt.Sprintf("id: %d\n", want)) && !s.stream.Finished(0) {
+							time.Sleep(500 * time.Microsecond)
+						}
+					}
 					time.Sleep(3 * time.Millisecond)
-					waitStable(s.stream.W, 200*time.Millisecond)
+					waitStable(s.stream.W, 500*time.Millisecond)
 					s.stream.Finished(50 * time.Millisecond)
 					g, st, ut := hub.metrics()
 					metricsTerms = append(metricsTerms, fmt.Sprintf("((%d)%%Z, %d, %d)", g, st, ut))
@@ -248,6 +274,7 @@ func runHubSeq(a args) error {
 				}
 				i := cand[r.Intn(len(cand))]
 				subs[i].stalled = true
+				subs[i].stalledAt = len(published)
 				subs[i].stream.W.Gate(true)
 				ops = append(ops, fmt.Sprintf("HStall %d%%nat", i))
 				opsDesc = append(opsDesc, fmt.Sprintf("stall %d", i))
@@ -278,7 +305,7 @@ func runHubSeq(a args) error {
 				last := hsUpd{ID: nextID, Topics: []string{topic}}
 				for _, s := range subs {
 					if s.started && s.accepted && !s.left && !s.stalled && !s.stream.Finished(0) && hsMatches(s, last) {
-						deadline := time.Now().Add(2 * time.Second)
+						deadline := time.Now().Add(10 * time.Second)
 						for time.Now().Before(deadline) && !strings.Contains(s.stream.W.Body(), fmt.Sprintf("id: %d\n", last.ID)) && !s.stream.Finished(0) {
 							time.Sleep(200 * time.Microsecond)
 						}
@@ -312,7 +339,7 @@ func runHubSeq(a args) error {
 				if code == 200 {
 					for _, s := range subs {
 						if s.started && s.accepted && !s.left && !s.stalled && !s.stream.Finished(0) && hsMatches(s, u) {
-							deadline := time.Now().Add(300 * time.Millisecond)
+							deadline := time.Now().Add(3 * time.Second)
 							for time.Now().Before(deadline) && !strings.Contains(s.stream.W.Body(), fmt.Sprintf("id: %d\n", u.ID)) && !s.stream.Finished(0) {
 								time.Sleep(200 * time.Microsecond)
 							}
@@ -362,7 +389,11 @@ func runHubSeq(a args) error {
 				}
 				s.accepted = s.stream.W.Status == 200
 				if s.accepted {
-					waitStable(s.stream.W, 100*time.Millisecond)
+					if s.Req != "" { // a replay may follow: give a paused handler time to go on
+						waitQuiet(s.stream.W, 3*time.Second, 15)
+					} else {
+						waitStable(s.stream.W, 200*time.Millisecond)
+					}
 				} else {
 					s.stream.Finished(time.Second)
 				}
